@@ -38,7 +38,7 @@ ERR = {1: "journal (coordinator requests + statements reaching the database) dif
        11: "XABranchXid.String() differs from xa_id", 12: "gtrid/bqual differ from the model's encode",
        13: "XaIdBuildWithByte(gtrid, bqual) differs from the model's decode"}
 CMD = {"START": "START", "STMT": "STMT", "END": "END_", "PREPARE": "PREPARE", "COMMIT": "COMMIT", "ROLLBACK": "ROLLBACK"}
-RES = {"ok": "ROk", "fault": "RFault", "rmfail": "RRmfail", "nota": "RNota", "dupid": "RDupid"}
+RES = {"ok": "ROk", "fault": "RFault", "rmfail": "RRmfail", "nota": "RNota", "dupid": "RDupid", "rbidle": "RRb"}
 
 
 def u64(b):
@@ -61,6 +61,8 @@ def op_term(o):
         return "OLocal"
     if o["k"] == "retry":
         return "ORetry %d %s" % (o.get("g", 0), coq_bool(bool(o.get("slow"))))
+    if o["k"] == "away":
+        return "ORelease %d" % o["target"]
     if o["k"] == "check":
         return "OCheck %s" % coq_bool(bool(o.get("expired")))
     if o["k"] == "retire":
@@ -83,13 +85,14 @@ def out_term(op, r):
 def case_term(res):
     sc = res["scenario"]
     det = tuple(int(x) for x in sc["version"].split(".")[:3]) >= (8, 0, 29)
-    return ("{| c_detach := %s; c_xids := %s; c_bids := %s; c_refuse := %s; c_faults := %s; c_fbad := %s;\n   c_prog := %s;\n"
+    return ("{| c_detach := %s; c_xids := %s; c_bids := %s; c_refuse := %s; c_faults := %s; c_fbad := %s; c_frb := %s;\n   c_prog := %s;\n"
             "   c_jour := %s;\n   c_out := %s |}") % (
         coq_bool(det), coq_list([coq_hex(h) for h in sc["xids_hex"]]),
         coq_list(["%d" % u64(b) for b in sc["branches"] or []]),
         coq_list([coq_bool(m != 0) for m in sc["refuse"] or []]),
         coq_list(["(%s, %d%%nat)" % (CMD[f["kind"]], f["nth"]) for f in sc["faults"] or []]),
         coq_list(["(%s, %d%%nat)" % (CMD[f["kind"]], f["nth"]) for f in sc["faults"] or [] if f.get("err") == "badconn"]),
+        coq_list(["%d%%nat" % f["nth"] for f in sc["faults"] or [] if f.get("err") == "rbonly" and f["kind"] == "END"]),
         coq_list([op_term(o) for o in sc["ops"]]),
         coq_list([ev_term(e) for e in res["events"] or []]),
         coq_list([out_term(o, r) for o, r in zip(sc["ops"], res["ops"])]))
@@ -254,7 +257,7 @@ def run(chk, only=None):
                                              for r in nontriv]),
         "rule": "72 enumerated single-branch scenarios (every single fault position START/STMT/END/PREPARE/COMMIT/ROLLBACK, both refusal "
                 "kinds, commit/rollback, holder/stranger, server 5.7.30 and 8.0.30) + 54 enumerated pool-retirement / ErrBadConn / db.ExecContext-retry "
-                "histories + 150 enumerated reuse/timeout histories + 4 long-xid (IPv6) multi-branch histories + 56 two-phase-timeout-checker histories (failed first "
+                "histories + 150 enumerated reuse/timeout histories + 4 long-xid (IPv6) multi-branch histories + 56 two-phase-timeout-checker histories + 33 non-holder-phase-two / rollback-only-END histories (failed first "
                 "branch of every kind x second branch on the same pooled connection x phase-two order; timeouts) + %d seeded programs "
                 "(1-4 branches on fresh or pool-reused connections or through db.ExecContext with its retry, pool retirements, slow statements, fault error "
                 "kinds generic/ErrBadConn/context, interleaved phase two incl. rollback for failed-START "
